@@ -37,6 +37,7 @@ type hier struct {
 	ik    int         // key kind index of the direct issuer
 	pi    bool        // direct issuer is a dedicated precertificate signing certificate (CT EKU)
 	piAKI bool        // ... that carries an authority key identifier
+	caEKU bool        // the (ordinary) direct issuer carries an extended key usage extension (serverAuth, clientAuth): not a pre-issuer
 	cas   []*pki.Cert // cas[0] = direct issuer ... cas[n] = root
 }
 
@@ -45,16 +46,22 @@ func (h *hier) label() string {
 	if h.pi {
 		s += fmt.Sprintf(" preissuer(aki=%v)", h.piAKI)
 	}
+	if h.caEKU {
+		s += " issuer-with-serverAuth-EKU"
+	}
 	return s
 }
 
 func (h *hier) root() *pki.Cert { return h.cas[h.n] }
 
-func buildHier(n, ik int, pi, piAKI bool) *hier {
-	h := &hier{n: n, ik: ik, pi: pi, piAKI: piAKI, cas: make([]*pki.Cert, n+1)}
+func buildHier(n, ik int, pi, piAKI, caEKU bool) *hier {
+	h := &hier{n: n, ik: ik, pi: pi, piAKI: piAKI, caEKU: caEKU, cas: make([]*pki.Cert, n+1)}
 	tag := fmt.Sprintf("n%d-%s", n, kinds[ik])
 	if pi {
 		tag += fmt.Sprintf("-pi%v", piAKI)
+	}
+	if caEKU {
+		tag += "-eku"
 	}
 	h.cas[n] = pki.NewRoot("C01 root "+tag, caKey(ik, n+1))
 	for d := n; d >= 1; d-- {
@@ -64,6 +71,9 @@ func buildHier(n, ik int, pi, piAKI bool) *hier {
 			o.EKUs = [][]int{pki.OIDEKUCT}
 			o.NoAKI = !piAKI
 			cn = "C01 precert signing " + tag
+		}
+		if d == 1 && caEKU {
+			o.EKUs = [][]int{pki.OIDEKUServerAuth, pki.OIDEKUClientAuth}
 		}
 		h.cas[d-1] = pki.NewCA(cn, caKey(ik, d), h.cas[d], o)
 	}
@@ -116,10 +126,17 @@ func (s *shape) features() string {
 		return "kind=precert-via-preissuer leaf-aki=false preissuer-aki=true"
 	case s.pre() && len(s.refExts()) == 0:
 		return "kind=precert no-extension-left-after-depoisoning"
-	case s.val != "utc":
-		return "kind=" + s.kind + " validity=" + s.val
 	case s.kind == kPrePI:
 		return fmt.Sprintf("kind=precert-via-preissuer leaf-aki=%v preissuer-aki=%v", s.leafAKI, s.h.piAKI)
+	}
+	return "kind=" + s.kind
+}
+
+// featuresFor: only a difference in the rewritten TBSCertificate depends on the
+// extension / AKI situation; every other field depends on the entry kind alone.
+func (s *shape) featuresFor(field string) string {
+	if field == "tbs_certificate" {
+		return s.features()
 	}
 	return "kind=" + s.kind
 }
@@ -277,12 +294,14 @@ type world struct {
 	shapes []*shape
 }
 
-func (w *world) hier(n, ik int, pi, piAKI bool) *hier {
-	k := fmt.Sprintf("%d/%d/%v/%v", n, ik, pi, piAKI)
+func (w *world) hier(n, ik int, pi, piAKI bool) *hier { return w.hierE(n, ik, pi, piAKI, false) }
+
+func (w *world) hierE(n, ik int, pi, piAKI, caEKU bool) *hier {
+	k := fmt.Sprintf("%d/%d/%v/%v/%v", n, ik, pi, piAKI, caEKU)
 	if h, ok := w.hiers[k]; ok {
 		return h
 	}
-	h := buildHier(n, ik, pi, piAKI)
+	h := buildHier(n, ik, pi, piAKI, caEKU)
 	w.hiers[k] = h
 	return h
 }
@@ -360,6 +379,15 @@ func newWorld() *world {
 			add(kCert, w.hier(1, ik, false, false), ik, layout{true, 2, 0, -1}, val)
 			add(kPreDirect, w.hier(1, ik, false, false), ik, l, val)
 			add(kPrePI, w.hier(2, ik, true, true), ik, l, val)
+		}
+	}
+	// an ordinary issuing CA that carries an extended key usage extension is not a pre-issuer
+	for ik := 0; ik < 4; ik++ {
+		for n := 1; n <= 2; n++ {
+			h := w.hierE(n, ik, false, false, true)
+			add(kCert, h, (ik+1)%4, layout{true, 1, 0, -1}, "utc")
+			add(kPreDirect, h, (ik+1)%4, layout{true, 1, 0, 2}, "utc")
+			add(kPreDirect, h, (ik+2)%4, layout{false, 2, 0, 0}, "utc")
 		}
 	}
 	return w
